@@ -2,7 +2,7 @@
 
 use crate::broker::{AutoBroker, ServerCfg};
 use crate::codec::RawFrame;
-use crate::ops::{coverage_key, exec_op, expected_frames, expected_result, op_strategy, ChanEnv, Op, OpResult, SettleRoute};
+use crate::ops::{results_match, coverage_key, exec_op, expected_frames, expected_result, op_strategy, ChanEnv, Op, OpResult, SettleRoute};
 use crate::oracle::{bad, brief, check_stream_wellformed, per_channel, Verdict};
 use crate::run::{take_panics, Outcome, Part, PartDyn, Tier};
 use crate::session::{open_session, timed, ClientCfg, CALL_TIMEOUT};
@@ -168,7 +168,7 @@ pub fn exec(c: &Case) -> Outcome {
         exp_ch.extend(v);
         exp_other.extend(w);
         if let Some(want) = expected_result(op, ch, c.salt, seq_before) {
-            if results[i] != want {
+            if !results_match(&results[i], &want) {
                 let sig = match (&results[i], op) {
                     (OpResult::Settled { panicked: false, .. }, Op::Settle { cross_channel: true, route, how, .. }) => {
                         format!("cross-channel-settle-did-not-panic:{:?}/{}", route, settle_name(how))
